@@ -85,6 +85,19 @@ def h_ctor(d: Decl, props):
     return Harness(d, 'new', props, body, clause='new(raw).into_inner() == sanitize(raw), bit-exact, no panic')
 
 
+def h_ctor_c07(d: Decl, props):
+    """C07 clause only: when the constructor rejects, the error is the variant of the first validator
+    (written order) that the sanitized value violates."""
+    S = concrete_self(d)
+    R = 'ref_' + d.id
+    body = (sym_setup(d) + anyval(d) +
+            '        if let Err(e) = %s::try_new(raw) {\n' % S +
+            '            let expect = %s::validate(&%s::sanitize(raw));\n' % (R, R) +
+            '            assert!(expect == Err(e), "a rejection reports the first violated validator");\n'
+            '        }\n')
+    return Harness(d, 'try_new#C07', props, body, clause='try_new(raw) == Err(e)  ==>  validate(sanitize(raw)) == Err(e)  (first violated validator in written order)')
+
+
 def h_try_from(d: Decl, props):
     S = concrete_self(d)
     R = 'ref_' + d.id
@@ -486,8 +499,10 @@ def harnesses_for(prop, tier, seed):
         fl = float_decls(tier)
         ki = [d for d in int_kani_decls(tier) if 'closure' in d.id]
         decls = fl + ki
+        if prop == 'C07':
+            decls = [d for d in decls if d.has_validation]
         for d in decls:
-            hs.append(h_ctor(d, [prop]))
+            hs.append(h_ctor(d, [prop]) if prop == 'C01' else h_ctor_c07(d, [prop]))
     elif prop == 'C02':
         from .spellings import numeric_spellings
         decls = numeric_spellings(tier)
